@@ -156,21 +156,25 @@ class ExtractDfParsers(_ExtractDf):
 
 class RegexFilter(Contract):
     target = f"{DM}._regex_filter"
-    split = {"regexps": list(range(8))}
+    # names: the column names of the model's fields - text, or (Field(alias=2020): "Aliases ... can be any hashable") not text
+    split = {"regexps": list(range(8)), "names": ["text", "with_a_non_text_alias"]}
     PATS = ["a", "a$", "b|zz"]
+    raises = ()
 
     def make_args(self):
         k = self.fixed.get("regexps", 0)
         pats = [p for j, p in enumerate(self.PATS) if k >> j & 1]
-        cur().ghost["pats"] = pats
-        return {"seq": ListObj(NAMES), "regexps": ListObj(pats)}
+        names = list(NAMES) + ([2020] if self.fixed.get("names", "text") != "text" else [])
+        cur().ghost.update(pats=pats, names=names)
+        return {"seq": ListObj(names), "regexps": ListObj(pats)}
 
     def call_target(self, I, fn, a):
         return I.call(fn, [a["seq"], a["regexps"]], {})
 
     def ensures(self, result, old, seq, regexps):
         pats = cur().ghost["pats"]
-        want = {n for n in NAMES if any(re.match(p, n) for p in pats)}
+        # (a name that is not text is matched by no regular expression)
+        want = {n for n in cur().ghost["names"] if isinstance(n, str) and any(re.match(p, n) for p in pats)}
         return {"exactly_the_items_some_regex_matches": set(result) == want}
 
 
